@@ -19,6 +19,7 @@ CONSTANTS
   MaxValid = 0
   Deviations = {}
   Emit = "off"
+  Focus = "all"
 INVARIANTS TypeOK P_C15_React P_C15_Total P_C15_Streams P_C15_Structural P_C15_ConnErrorCloses
 PROPERTIES P_C15_NoNewWhileDraining P_C15_GoawayCloses
 CHECK_DEADLOCK FALSE
